@@ -59,14 +59,16 @@ def main():
         return 2
     res["checks"] = {}
     try:
-        assert subprocess.run(["git", "-C", "/repo", "apply", patch]).returncode == 0
+        if checks:
+            assert subprocess.run(["git", "-C", "/repo", "apply", patch]).returncode == 0
         for c in checks:
             p = subprocess.run(["/verif/check", c], capture_output=True, text=True)
             lines = [l for l in p.stdout.splitlines() if l.startswith(("violation detail", "INCONCLUSIVE", "KNOWN"))]
             res["checks"][c] = {"exit": p.returncode, "detail": [l[:400] for l in lines[:3]]}
     finally:
-        subprocess.run(["git", "-C", "/repo", "checkout", "--", "."])
-        subprocess.run(["git", "-C", "/repo", "clean", "-fdq"])
+        if checks:
+            subprocess.run(["git", "-C", "/repo", "checkout", "--", "."])
+            subprocess.run(["git", "-C", "/repo", "clean", "-fdq"])
     sd = "/verif/seeded/" + sid
     os.makedirs(sd, exist_ok=True)
     shutil.copy(patch, os.path.join(sd, "patch.diff"))
